@@ -13,6 +13,8 @@ import (
 	"verif/ref"
 
 	"github.com/folbricht/desync"
+	minio "github.com/minio/minio-go/v6"
+	"github.com/minio/minio-go/v6/pkg/credentials"
 )
 
 // ---- C04: index files round-trip exactly and malformed ones are rejected ----
@@ -100,7 +102,7 @@ func runC04(c *fw.Case) {
 		idx.Chunks = append(idx.Chunks, desync.IndexChunk{ID: id, Start: pos, Size: s})
 		pos += s
 	}
-	storeKind := c.Draw(3, "store") // 0 stream, 1 local index store, 2 http index store
+	storeKind := c.Draw(7, "store") % 4 // 0 stream, 1 local index store, 2 http index store, 3 S3 index store (read side; rarer: real sockets)
 	c.Class(fmt.Sprintf("chunks<=%d store=%d sha256=%v", (n+15)/16*16, storeKind, sha256mode))
 	c.Note("index chunks=%d sizes=%v flags=%x store=%d sha256=%v", n, sz, flags, storeKind, sha256mode)
 	var buf bytes.Buffer
@@ -167,6 +169,27 @@ func runC04(c *fw.Case) {
 			c.Violate("stored-bytes-differ", "RemoteHTTPIndex.StoreIndex", "index stored through the HTTP index server differs from Index.WriteTo output")
 			return
 		}
+	}
+	if storeKind == 3 {
+		s3, err := newS3Sim()
+		if err != nil {
+			c.HarnessError("%v", err)
+			return
+		}
+		defer s3.close()
+		u, _ := url.Parse("s3+http://" + s3.ln.Addr().String() + "/bucket/idx")
+		is, err := desync.NewS3IndexStore(u, credentials.NewStaticV2("verif", "verifsecret", ""), "us-east-1", desync.StoreOptions{}, minio.BucketLookupPath)
+		if err != nil {
+			c.HarnessError("%v", err)
+			return
+		}
+		put = func(b []byte) error {
+			s3.mu.Lock()
+			s3.objects["idx/x.caibx"] = append([]byte(nil), b...)
+			s3.mu.Unlock()
+			return nil
+		}
+		get = func() (desync.Index, error) { return is.GetIndex("x.caibx") }
 	}
 	try := func(b []byte) (desync.Index, error, bool) {
 		if err := put(b); err != nil {
